@@ -1320,6 +1320,23 @@ void op_JUNK(World& w, const Op& op)
    w.note("junk");
 }
 
+void op_LONGSTR(World& w, const Op& op)
+{
+   // long words: they roll the 1 MiB string pools over, and the largest take the oversize path
+   static const std::size_t base[] = {300, 5000, 70000, 400000, (std::size_t(1) << 20) + 17, 1500, 65535, 20000};
+   const std::size_t n = base[op.a % 8] + op.b;
+   if (w.counters["long_string_bytes"] + long(n) > (12 << 20)) return;
+   w.counters["long_string_bytes"] += long(n);
+   std::u8string sp(n, u8'a');
+   for (std::size_t i = 0; i < n; ++i) sp[i] = char8_t('a' + (i * (1 + op.c % 7) + op.d) % 26);
+   auto& s = w.L().get_string(sp);
+   auto again = [&w, sp] { return Entity{Aux::None, static_cast<const Node*>(&w.L().get_string(sp))}; };
+   w.unified("get_string", T_STRING, "string|" + bytes(sp), ent(s), Category_code::String, again).exp("characters", Val::bytes(bytes(sp)));
+   w.strs.push_back(&s);
+   w.findings.count("long_strings");
+   w.note("long string of " + std::to_string(n) + " bytes");
+}
+
 void op_BULK(World& w, const Op& op)
 {
    // many fresh distinct keys into one table, to force rebalancing between a request and its repeat
@@ -1442,7 +1459,7 @@ void register_decl_ops(std::vector<OpInfo>& t)
    R(PHASED, G_DIR); R(PRAGMA, G_DIR); R(PRAGMA_TOKEN, G_MEMBER);
    R(FORM, G_FORM); R(FORM_FILL, G_FORM); R(ATTR, G_ATTR); R(CAPSPEC, G_ATTR);
    R(NEW_UNIT, G_UNIT); R(NEW_MODULE, G_UNIT); R(MODULE_UNIT, G_UNIT); R(MODULE_FILL, G_UNIT); R(SUBREGION, G_REGION);
-   R(LOCATE, G_HARNESS); R(STMT_ATTR, G_MEMBER); R(JUNK, G_HARNESS); R(BULK, G_HARNESS); R(REPEAT, G_HARNESS); R(PRINT, G_HARNESS);
+   R(LOCATE, G_HARNESS); R(STMT_ATTR, G_MEMBER); R(JUNK, G_HARNESS); R(BULK, G_HARNESS); R(REPEAT, G_HARNESS); R(PRINT, G_HARNESS); R(LONGSTR, G_HARNESS);
 #undef R
 }
 
